@@ -16,7 +16,7 @@ def main():
     na = []
     for p in props:
         pid = p["id"]
-        if pid in plans.CHECKS and pid in plans.META:
+        if pid in plans.CHECKS and pid in plans.META and pid not in plans.NOT_READY:
             m = plans.META[pid]
             checks.append({
                 "property_id": pid,
